@@ -326,3 +326,44 @@ def run(ctx):
     # ------------------------------------------------------------------ CLOSE-HDR (shared with C04)
     from rules.C04 import close_hdr
     close_hdr(ctx, prog)
+    varint_rule(ctx, prog)
+
+
+def varint_rule(ctx, prog, rule='VARINT'):
+    """CAF 'pakt' table: variable-length packet sizes.  Each guarded arm `(value & M) == value` of alac_pakt_encode must have M = 2^(7n) - 1 and store
+    n bytes, most significant 7-bit group first, continuation bit 0x80 on all but the last (lane proof for every value the guard admits)."""
+    from engine.lanes import LaneEval, Val
+    ctx.rule(rule, 'alac_pakt_encode: every arm guarded by (value & M) == value has M = 2^(7n)-1 and stores exactly n bytes whose low 7 bits are the value\'s 7-bit groups, most significant first, '
+             'with bit 7 set on all but the last byte (symbolic lane evaluation); the decoder accumulates (value << 7) + (byte & 0x7F) while (byte & 0x80)', floor=4)
+    f = prog.fn('alac_pakt_encode', 'alac.c')
+    arms = [n for n in f.walk() if n['k'] == 'IfStmt' and re.match(r'^\(\(value & \d+\) == value\)$', f.s(n['cond']))]
+    ctx.require(len(arms) >= 3, 'alac_pakt_encode has %d varint arms' % len(arms))
+    seen_n = set()
+    for a in arms:
+        M = int(re.match(r'^\(\(value & (\d+)\)', f.s(a['cond'])).group(1))
+        n = (M + 1).bit_length() - 1
+        bad = []
+        if (M + 1) & M or n % 7:
+            bad.append('guard mask %#x is not 2^(7n)-1' % M)
+            n = max(1, -(-n // 7)) * 7
+        n //= 7
+        seen_n.add(n)
+        le = LaneEval(prog, f, 'value#', 'data#', ('int', 32, True))
+        le.f_top = f
+        env = {'value': Val([('s', k) for k in range(7 * n)] + [0] * (32 - 7 * n), True)}
+        stores = [x for x in f.walk(a['then']) if x['k'] == 'BinaryOperator' and x['op'] == '=' and f.s(x['kids'][0]).startswith('data[')]
+        if len(stores) != n:
+            bad.append('stores %d byte(s), %d needed for %d payload bits' % (len(stores), n, 7 * n))
+        for j, st in enumerate(stores[:n]):
+            v = le.ev(f, st['kids'][1], env)
+            bits = v.ext(8) if isinstance(v, Val) else [None] * 8
+            exp = [('s', 7 * (n - 1 - j) + b) for b in range(7)] + [1 if j < n - 1 else 0]
+            if bits != exp:
+                bad.append('byte %d is [%s], documented [%s]' % (j, ' '.join(fmt(x) for x in reversed(bits)), ' '.join(fmt(x) for x in reversed(exp))))
+        ctx.ob(rule, 'alac_pakt_encode:%d-byte' % n, not bad, f.loc(a), '%d-byte form for values < 2^%d: %s' % (n, 7 * n, 'lanes as documented' if not bad else '; '.join(bad[:2])), None)
+    ctx.ob(rule, 'alac_pakt_encode:forms', seen_n >= {1, 2, 3, 4}, f.loc(f.body), 'forms present: %s' % sorted(seen_n), None)
+    g = prog.fn('alac_pakt_read_decode', 'alac.c')
+    acc = [f2 for f2 in [g.s(x) for x in g.walk() if x['k'] == 'BinaryOperator' and x['op'] == '=' and g.s(x['kids'][0]) == 'value'] if '<< 7' in f2]
+    cond = [g.s(x['cond']) for x in g.walk() if x['k'] == 'DoStmt']
+    ok = any(a_ == '(value = ((value << 7) + (byte & 127)))' for a_ in acc) and '(byte & 128)' in cond
+    ctx.ob(rule, 'alac_pakt_read_decode', ok, g.loc(g.body), 'decoder accumulation %s, continuation test %s' % (acc, cond), None)
